@@ -109,6 +109,12 @@ def case_strategy(draw, tier):
             })
     nout = draw(st.sampled_from([0, 1, 1, 1, 1, 2, 3, 5])) if tier == "quick" else draw(
         st.sampled_from([0, 1, 1, 1, 2, 3, 5, 40, 250]))
+    if draw(st.integers(0, 14)) == 0:
+        # sweep of small change: an output-less build whose coins are worth about the fee of spending them, so that the
+        # first round leaves no change output and a later round runs out of funds while inputs are already held
+        nout = 0
+        utxos = [{"amount": 7400 + 500 + draw(st.integers(0, 3500)), "acct": draw(st.integers(0, 1)), "n": i % 6, "kind": "pay",
+                  "height": 5, "verified": True, "reserved": False} for i in range(draw(st.integers(1, 3)))]
     outs = []
     for _ in range(nout):
         k = draw(st.sampled_from(["pay"] * 5 + ["claim", "support", "support_data", "purchase", "update"]))
